@@ -71,6 +71,24 @@ package utils
 //@   ensures[deleted] seq: cache.cache != nil && !in(key, cache.cache)
 //@   ensures[others-untouched] seq: old(cache.cache) != nil ==> cache.cache == old(cache.cache) && forall(k, K, k != key ==> (in(k, cache.cache) <==> old(in(k, cache.cache))) && cache.cache[k] == old(cache.cache[k]))
 
+// ---------------------------------------------------------------- header parsing (C05): what is handed on is a map that can be written to
+// The parsed headers become the transaction's own header map; processors and actions write into it (SetBody sets
+// content-length, EnsureRequestIsUpdated / EnsureResponseIsUpdated copy header edits). For EVERY header block - empty,
+// blank, malformed - the result is a map, never nil: a write to a nil map is a panic on the SPOE handler goroutine.
+// (bufio / textproto / lo are outside the verifier's reach: trusted to return some reader / header / map.)
+//@ func MakeHeadersLowercase
+//@   prop C05
+//@   modifies nothing
+//@   allocates map
+//@   loop 1 modifies mapof(normalizedHeaders)
+//@   loop 1 invariant[a-map] normalizedHeaders != nil
+//@   ensures[a-map-that-can-be-written-to] result != nil
+//@ func ParseHeaders
+//@   prop C05
+//@   requires raw != nil
+//@   modifies heap
+//@   ensures[a-map-that-can-be-written-to] result != nil
+
 // ---------------------------------------------------------------- header merge (C07): union, the second map wins on conflict
 //@ ghost func mergedOf(r map[string]string, a map[string]string, b map[string]string) bool = r != nil && forall(k, string, (in(k, r) <==> in(k, a) || in(k, b)) && (in(k, r) ==> r[k] == ite(in(k, b), b[k], a[k])))
 
